@@ -87,6 +87,12 @@ func init() {
 						edt.Check(ve, ecfg, s)
 					}
 				}
+				// a malformed sr25519 entry (all-zero placeholder point, absorbing) never reaches the batch
+				// equation: the early aborts and summaries of the sr25519 batch verifier (tables of C12)
+				sb := run.Rule("DT-sr25519-batch", "the sr25519 batch verifier refuses a batch with a refused entry before the equation and reports per-entry results like single verification", 4)
+				for _, s := range c12BatchSpecs() {
+					edt.Check(sb, ecfg, s)
+				}
 				// the shared cache mutates its list and index only under the exclusive lock (a racing
 				// container/list is a nil dereference inside Verify)
 				lacc := run.Rule("LOCK-access", "every access to a field of a mutex-containing struct holds the lock; writes hold it exclusively", 8).RequireControl(1)
